@@ -191,6 +191,9 @@ class _FPCoreCompileInstance(Visitor):
         self.gensym = Gensym(reserved=def_use.names())
         self.unsafe_int_cast = unsafe_int_cast
         self._type_info = None
+        # rounding properties in effect around the statement being compiled
+        # (FPCore's defaults unless the function or a `with` block says otherwise)
+        self._scope_props: list[dict] = [{ 'precision': 'binary64', 'round': 'nearestEven' }]
 
     def compile(self) -> fpc.FPCore:
         f = self._visit_function(self.func, None)
@@ -1267,7 +1270,6 @@ class _FPCoreCompileInstance(Visitor):
         if isinstance(stmt.target, NamedId):
             raise FPCoreCompileError('Context statements cannot bind to a variable', stmt.target)
 
-        body = self._visit_block(stmt.body, ctx)
         # extract a context value
         match stmt.ctx:
             case ForeignVal():
@@ -1281,14 +1283,24 @@ class _FPCoreCompileInstance(Visitor):
             case Context():
                 props = FPCoreContext.from_context(val).props
             case FPCoreContext():
-                props = val.props
+                props = dict(val.props)
             case _:
                 raise FPCoreCompileError('Expected `Context` or `FPCoreContext`', val)
 
-        # transform properties
-        for k in props:
-            props[k] = fpc.Data(self._visit_data(props[k]))
-        return fpc.Ctx(props, body)
+        # FPCore scopes an annotation over an expression, FPy scopes a
+        # context over a statement block: the statements after the block
+        # were compiled into `ctx`, which ends up inside the annotation,
+        # so put them back under the properties of the enclosing scope
+        if ctx is not None and not isinstance(ctx, fpc.Var):
+            ctx = fpc.Ctx(self._compile_props(self._scope_props[-1]), ctx)
+
+        self._scope_props.append({ **self._scope_props[-1], **props })
+        body = self._visit_block(stmt.body, ctx)
+        self._scope_props.pop()
+        return fpc.Ctx(self._compile_props(props), body)
+
+    def _compile_props(self, props: dict):
+        return { k: fpc.Data(self._visit_data(v)) for k, v in props.items() }
 
     def _visit_assert(self, stmt: AssertStmt, ctx: None):
         # strip the assertion
@@ -1329,7 +1341,6 @@ class _FPCoreCompileInstance(Visitor):
 
     def _visit_function(self, func: FuncDef, ctx: fpc.Expr | None):
         args = [self._compile_arg(arg) for arg in func.args]
-        body = self._visit_block(func.body, ctx)
 
         # metadata
         if func.meta is None:
@@ -1347,6 +1358,9 @@ class _FPCoreCompileInstance(Visitor):
                 case _:
                     raise RuntimeError('unreachable', func.ctx)
             props.update(fpc_ctx.props)
+            self._scope_props[0] = { **self._scope_props[0], **fpc_ctx.props }
+
+        body = self._visit_block(func.body, ctx)
 
         # function identifier
         ident = func.name
